@@ -201,6 +201,9 @@ func makePlan(r *ev.Run, idx int) *plan {
 	if r.Thorough() {
 		nOps = 14 + rng.Intn(20)
 	}
+	if p.kind.bolt { // a BoltDB call costs ~20x an in-memory one under -race
+		nOps = nOps * 2 / 3
+	}
 	mkPhase := func(name string, relaxed bool, stream bool, extra int) *phase {
 		ph := &phase{name: name, relaxed: relaxed, ops: make([][]opSpec, p.G)}
 		// every goroutine walks the same fresh values in the same order: the first call for each is contended
@@ -545,7 +548,7 @@ func runHistory(r *ev.Run, p *plan, ks ksrig.FullKeyStore) {
 		r.Inconclusive(fmt.Sprintf("history %d: store %s could not be built: %v", p.idx, p.kind.name(), err))
 		return
 	}
-	defer g.close()
+	defer g.discard()
 	h := &history{p: p, r: r, rig: g, pub: map[string][]pubEntry{}, fixed: map[string]tval{}, live: map[string]tval{}, contended: map[string]bool{}}
 	phIdx := 0
 	for _, it := range p.script {
@@ -592,12 +595,13 @@ func Run(r *ev.Run) {
 		textBoundary(r, k, ks)
 	}
 
-	n := r.Pick(200, 5000)
+	// thorough: 2 000 histories (DESIGN planned 5 000; measured cost under -race is ~0.7 CPU-s per BoltDB history, so 5 000 do not fit the 10-minute tier)
+	n := r.Pick(200, 2000)
 	plans := make([]*plan, n)
 	for i := range plans {
 		plans[i] = makePlan(r, i)
 	}
-	workers := r.Pick(3, 4)
+	workers := r.Pick(3, 6)
 	ch := make(chan *plan)
 	var wg sync.WaitGroup
 	for w := 0; w < workers; w++ {
@@ -617,24 +621,24 @@ func Run(r *ev.Run) {
 
 	// non-vacuity: every oracle must have seen events, on every store kind
 	r.RequireSetAtLeast("store_kinds_with_contended_consistent_keys", 4)
-	r.RequireAtLeast("consistent_keys_with_overlapping_first_calls", int64(r.Pick(40, 1000)))
-	r.RequireAtLeast("linearizability_partitions_checked", int64(r.Pick(300, 7000)))
-	r.RequireAtLeast("format_checked", int64(r.Pick(1500, 40000)))
+	r.RequireAtLeast("consistent_keys_with_overlapping_first_calls", int64(r.Pick(40, 400)))
+	r.RequireAtLeast("linearizability_partitions_checked", int64(r.Pick(300, 3000)))
+	r.RequireAtLeast("format_checked", int64(r.Pick(1500, 15000)))
 	for _, t := range allTypes {
 		r.RequireAtLeast("format_checked:"+typeName(t), 100)
 	}
 	r.RequireAtLeast("email_shape_checked", 30)
-	r.RequireAtLeast("owner_detokenize_returned_original", int64(r.Pick(500, 10000)))
-	r.RequireAtLeast("foreign_context_got_token_back", int64(r.Pick(100, 2000)))
-	r.RequireAtLeast("unknown_token_came_back", int64(r.Pick(50, 1000)))
+	r.RequireAtLeast("owner_detokenize_returned_original", int64(r.Pick(500, 5000)))
+	r.RequireAtLeast("foreign_context_got_token_back", int64(r.Pick(100, 1000)))
+	r.RequireAtLeast("unknown_token_came_back", int64(r.Pick(50, 500)))
 	r.RequireAtLeast("removed_token_came_back", 5)
-	r.RequireAtLeast("store_records_verified", int64(r.Pick(1000, 20000)))
-	r.RequireAtLeast("injectivity_tokens_checked", int64(r.Pick(1000, 20000)))
+	r.RequireAtLeast("store_records_verified", int64(r.Pick(1000, 10000)))
+	r.RequireAtLeast("injectivity_tokens_checked", int64(r.Pick(1000, 10000)))
 	r.RequireAtLeast("exhaustion_errors_on_small_token_space", 1)
 	r.RequireAtLeast("text_boundary_out_of_range_cases", 40)
 	r.RequireAtLeast("text_boundary_in_range_roundtrips", 40)
-	r.RequireAtLeast("maintenance_steps_via_cli", int64(r.Pick(8, 100)))
-	r.RequireAtLeast("maintenance_steps_direct", int64(r.Pick(40, 500)))
+	r.RequireAtLeast("maintenance_steps_via_cli", int64(r.Pick(8, 30)))
+	r.RequireAtLeast("maintenance_steps_direct", int64(r.Pick(40, 400)))
 	r.RequireAtLeast("disabled_phase_tokenize_refused", 5)
 	r.RequireAtLeast("tokens_survived_partial_removal", 3)
 	r.RequireSetAtLeast("layers_tokenize", 5)
